@@ -25,6 +25,27 @@ def pairs(d):
     return '[' + '; '.join('(%s, %s)' % (zlit(k), zlit(v)) for k, v in d) + ']'
 
 
+def rom_table(m):
+    """ROM contents read straight from romdata (list / dict / function), NOT through
+    RomBlock._get_read_data (which is code under test): missing entries are 0 when
+    pad_with_zeros, else left out."""
+    tab = []
+    d = m.data
+    for a in range(1 << m.addrwidth):
+        try:
+            if callable(d):
+                v = d(a)
+            else:
+                v = d[a]
+        except (KeyError, IndexError):
+            if getattr(m, 'pad_with_zeros', False):
+                v = 0
+            else:
+                continue
+        tab.append((a, int(v)))
+    return tab
+
+
 class Dump(object):
     """wire ids by sorted name; nets in block iteration order"""
 
@@ -64,13 +85,7 @@ class Dump(object):
 
     def mem(self, memid, m):
         if isinstance(m, pyrtl.RomBlock):
-            tab = []
-            for a in range(1 << m.addrwidth):
-                try:
-                    tab.append((a, m._get_read_data(a)))
-                except pyrtl.PyrtlError:
-                    pass
-            rom = '(Some %s)' % pairs(tab)
+            rom = '(Some %s)' % pairs(rom_table(m))
         else:
             rom = 'None'
         return 'mkMem %d %d %d %s' % (memid, m.addrwidth, m.bitwidth, rom)
